@@ -311,3 +311,62 @@ def eq_other(test: ast.AST, is_subject) -> Optional[ast.AST]:
         if is_subject(b):
             return a
     return None
+
+
+def paths_to(func_node: ast.AST, target: ast.AST, limit: int = 2048) -> list:
+    """Like path_conditions, but each path also lists the simple statements executed on it:
+    [(set(atoms), [stmt, ...])].  Branch statements contribute their tests to the atoms and their chosen bodies to the
+    statement list; `try` bodies are followed (handlers as alternative continuations); loop bodies are taken zero or one
+    time.  Atoms are never killed (they state under which tests the path was chosen)."""
+    results = []
+
+    class Found(Exception):
+        pass
+
+    def contains(s, t):
+        return any(x is t for x in ast.walk(s))
+
+    def block(stmts, paths):
+        cur = paths
+        for s in stmts:
+            if not cur:
+                return []
+            if contains(s, target) and not isinstance(s, (ast.If, ast.For, ast.While, ast.With, ast.Try, ast.AsyncWith, ast.AsyncFor)):
+                results.extend(cur)
+                raise Found
+            cur = stmt(s, cur)
+            if len(cur) > limit:
+                raise ValueError("path explosion")
+        return cur
+
+    def stmt(s, cur):
+        if isinstance(s, (ast.Return, ast.Raise, ast.Continue, ast.Break)):
+            return []
+        if isinstance(s, ast.If):
+            if contains(s.test, target):
+                results.extend(cur)
+                raise Found
+            t = [(c | frozenset(atoms(s.test, True)), st) for c, st in cur]
+            f = [(c | frozenset(atoms(s.test, False)), st) for c, st in cur]
+            return block(s.body, t) + (block(s.orelse, f) if s.orelse else f)
+        if isinstance(s, (ast.With, ast.AsyncWith)):
+            return block(s.body, cur)
+        if isinstance(s, ast.Try):
+            out = block(s.body, cur)
+            for h in s.handlers:
+                out = out + block(h.body, cur)
+            if s.orelse:
+                out = block(s.orelse, out)
+            if s.finalbody:
+                out = block(s.finalbody, out)
+            return out
+        if isinstance(s, (ast.For, ast.AsyncFor, ast.While)):
+            once = block(s.body, cur)
+            return cur + once
+        return [(c, st + [s]) for c, st in cur]
+
+    try:
+        block(func_node.body, [(frozenset(), [])])
+    except Found:
+        pass
+    return [(set(c), st) for c, st in results]
